@@ -69,8 +69,10 @@ def run(chk):
         if nE != len(V) + len(m["F"]) - 2:
             chk.violation("edge-count", dict(desc, edges_found=nE, euler=len(V) + len(m["F"]) - 2))
 
+        cond = C.conditioning(V)      # needles / plates far from the origin: see common.conditioning
+
         def cmp(name, impl, exact, rel=RT, extra=None):
-            if not abs(float(impl) - exact) <= rel * max(abs(exact), 1e-300):
+            if not abs(float(impl) - exact) <= rel * cond * max(abs(exact), 1e-300):
                 chk.violation(name, dict(desc, impl=float(impl), exact=exact, **(extra or {})))
 
         cmp("mean_curvature", p.mean_curvature, M)
